@@ -29,7 +29,7 @@ COMPONENTS = {'real': ['adsg_core GraphProcessor, hierarchy analyzers, DSG graph
 ASSUMPTIONS = ['The twin is built from the same spec in the same run; enumerations are compared as sets of rows.',
                'Kill points of the virtual limiter are CPython delivery points inside adsg_core frames.',
                'Graphs are small (<= 12 named nodes, <= 4 selection choices, <= 2 design-variable nodes).']
-WALL_BUDGET = {'quick': 70.0, 'thorough': 1200.0}
+WALL_BUDGET = {'quick': 70.0, 'thorough': 600.0}
 
 
 def jobs(tier, batch_seed):
